@@ -6,6 +6,7 @@ import (
 	"encoding/json"
 	"errors"
 	"fmt"
+	"net/http"
 	"os"
 	"path/filepath"
 	"sort"
@@ -37,12 +38,37 @@ type composeObj struct {
 	conds    cloudstorage.Conditions
 }
 
+// checkNames refuses the names that would take the file store out of its own directory: every object is the file
+// <gcsDir>/<bucket>/<name>, so a bucket name that is "." or ".." or holds a path separator, and an object name with a
+// ".." path segment, resolve to files outside the bucket (".." as a bucket name: the parent of the store's directory,
+// whose deletion as a "bucket" removes that directory recursively). filename may be "" (the bucket itself).
+func (fs *filestore) checkNames(bucket string, filename string) error {
+	if bucket == "." || bucket == ".." || strings.ContainsAny(bucket, "/\\\x00") {
+		return fmtErrorfCode(http.StatusBadRequest, "the file store cannot hold a bucket named %q", bucket)
+	}
+	for _, seg := range strings.Split(filename, "/") {
+		if seg == ".." {
+			return fmtErrorfCode(http.StatusBadRequest, "the file store cannot hold an object name with a \"..\" path segment: %q", filename)
+		}
+	}
+	if strings.Contains(filename, "\x00") {
+		return fmtErrorfCode(http.StatusBadRequest, "the file store cannot hold an object name with a NUL byte: %q", filename)
+	}
+	return nil
+}
+
 func (fs *filestore) CreateBucket(bucket string) error {
+	if err := fs.checkNames(bucket, ""); err != nil {
+		return err
+	}
 	bucketDir := filepath.Join(fs.gcsDir, bucket)
 	return os.MkdirAll(bucketDir, 0777)
 }
 
 func (fs *filestore) GetBucketMeta(baseUrl HttpBaseUrl, bucket string) (*storage.Bucket, error) {
+	if err := fs.checkNames(bucket, ""); err != nil {
+		return nil, err
+	}
 	f := fs.filename(bucket, "")
 	fInfo, err := os.Stat(f)
 	if err != nil {
@@ -87,6 +113,9 @@ func hasNoFile(filename string) bool {
 }
 
 func (fs *filestore) GetMeta(baseUrl HttpBaseUrl, bucket string, filename string) (*storage.Object, error) {
+	if err := fs.checkNames(bucket, filename); err != nil {
+		return nil, err
+	}
 	if hasNoFile(filename) {
 		return nil, nil
 	}
@@ -103,6 +132,9 @@ func (fs *filestore) GetMeta(baseUrl HttpBaseUrl, bucket string, filename string
 }
 
 func (fs *filestore) Add(bucket string, filename string, contents []byte, meta *storage.Object) error {
+	if err := fs.checkNames(bucket, filename); err != nil {
+		return err
+	}
 	if hasNoFile(filename) {
 		return fmt.Errorf("could not write: %s/%s: the file store cannot hold an object name that ends in \"/\"", bucket, filename)
 	}
@@ -136,6 +168,9 @@ func (fs *filestore) Add(bucket string, filename string, contents []byte, meta *
 }
 
 func (fs *filestore) UpdateMeta(bucket string, filename string, meta *storage.Object, metagen int64) error {
+	if err := fs.checkNames(bucket, filename); err != nil {
+		return err
+	}
 	InitScrubbedMeta(meta, filename)
 	meta.Metageneration = metagen
 
@@ -174,6 +209,9 @@ func (fs *filestore) Copy(srcBucket string, srcFile string, dstBucket string, ds
 }
 
 func (fs *filestore) Delete(bucket string, filename string) error {
+	if err := fs.checkNames(bucket, filename); err != nil {
+		return err
+	}
 	if hasNoFile(filename) {
 		return os.ErrNotExist
 	}
@@ -262,6 +300,9 @@ func metaFilename(filename string) string {
 }
 
 func (fs *filestore) Walk(ctx context.Context, bucket string, cb func(ctx context.Context, filename string, fInfo os.FileInfo) error) error {
+	if err := fs.checkNames(bucket, ""); err != nil {
+		return err
+	}
 	root := filepath.Join(fs.gcsDir, bucket)
 	fInfo, err := os.Lstat(root)
 	if err != nil {
